@@ -78,6 +78,10 @@ run_directed = directed.run
 
 
 def cases(tier, rng):
+    for c in directed.wrapped_async_public_method_cases():
+        yield "directed-wrapped-async-public-method", c
+    for c in directed.odd_member_names_cases():
+        yield "directed-odd-member-names", c
     thorough = tier == "thorough"
     for c in directed.one_function_in_two_roles_cases():
         yield "directed-one-function-in-two-roles", c
